@@ -4,7 +4,7 @@ spec:   spec/ResponseEmit.tla       case -> emission state machine (RenderFails,
                                     StreamSendChunk, CloseStream, Eof, SseNext, SseSend) + the property clauses
         spec/MC_ResponseEmit.tla    bounded case tables (one initial state per case), JSON export of every behaviour
         spec/ResponseEmitTrace.tla  trace judge: the same clause operators evaluated on recorded observations
-legs:   M  exhaustive TLC check of the emission design over the whole case table (+ the six wrong-design
+legs:   M  exhaustive TLC check of the emission design over the whole case table (+ the eight wrong-design
            switches must each break their invariant)
         A  every behaviour TLC exported is replayed on the real falcon.App / falcon.asgi.App under the independent
            PEP 3333 / ASGI monitors of engine.drivers, with scheduled render / stream / send faults; the observation is
@@ -22,7 +22,16 @@ META = {
                   'the case table status x form x method x body sources x preset headers x interface x fault point; '
                   'every case of the table is executed on the real WSGI and ASGI apps and compared with the behaviour '
                   'TLC computed; random responses beyond the table are judged by TLC with the same clause operators.',
-    'level_note': 'Bounded: table of 3.7e4 (quick) / 4.0e5 (thorough) cases, <= 3 stream items (bytes, empty, None), SSE scripts '
+    'level_note': 'Stream object kinds (the case field `stream` of ResponseEmit): iterator with close(), iterable with close() that is '
+                  'not its own iterator (__iter__/__aiter__ a generator function; the close obligation is stated on, and counted at, '
+                  'the object the application assigned - a close() of a derived iterator does not count), file-like whose read(n) '
+                  'returns short non-empty blocks (end of data only b\'\'), file-like honouring n (data segments up to 20 kB re-cut by the '
+                  'specification into blocks of 8192, Blocks/Reblock; the body must be the concatenation of all segments), iterable '
+                  'without close(); each on WSGI with and without wsgi.file_wrapper and, with async read/__aiter__/close, on ASGI; '
+                  'every kind fault-free and with a fault at every read (exhaustion included) and every send (ASGI: the response start '
+                  'too; a client disconnect during a stream is the server\'s send failing) for int-status, plain-header cases; quick '
+                  'tier: the two new kinds and the 3-short-block file-like only with int status, no preset headers, no data. '
+                  'Bounded: table of 3.8e4 (quick) / 4.6e5 (thorough) cases, <= 3 stream items (bytes, empty, None), SSE scripts '
                   'of <= 4 items (events and None pings in every position); random leg <= 5 items, 18 status codes, 6 '
                   'methods. A client disconnect after k items is explored for every SSE script (plain-header, int-status '
                   'cases). Application histories (decoy values overwritten / unset, early public render_body() calls between '
@@ -129,13 +138,21 @@ TOKEN = re.compile(rb': ping\n\n|<T[^<>]*>|<D[^<>]*>|"<M[^<>]*>"|<S(\d+):[^<>]*>
 ERROR_DOC = {'title': '500 Internal Server Error'}     # what the default handler answers (D-level detail)
 
 
-def pieces_of(body, case):
+def pieces_of(body, case, cut=False):
     """Project received body bytes to source pieces [[src, idx], ..]; anything that is not exactly a
-    payload of this case becomes ['other', -1] (and ends the projection)."""
+    payload of this case becomes ['other', -1] (and ends the projection).
+    cut: the emission was interrupted by an injected fault and the stream is a file-like read in blocks of the
+    framework's choosing (kind filefull): the body may end inside a segment; a last incomplete segment that is a
+    true beginning of the next expected one is not a piece (the pieces are the segments wholly received)."""
     out, p = [], 0
     while p < len(body):
         m = TOKEN.match(body, p)
         if not m:
+            i = len([x for x in out if x[0] == 'stream'])
+            nz = [j for j, n in enumerate(case['chunks']) if n > 0]
+            if cut and case['stream'] == 'filefull' and i < len(nz) and \
+                    chunk_payload(nz[i], case['chunks'][nz[i]]).startswith(body[p:]):
+                break
             out.append(['other', -1])
             break
         tok = m.group(0)
@@ -188,6 +205,7 @@ class Log:
         self.renderFailed = False
         self.renderFails = 0          # renderings that raised
         self.renderCalls = 0          # render_body() calls of the custom response class
+        self.iter_closes = 0          # a derived iterator of an iterable stream was finalised (not the object's close())
 
 
 class _Base:
@@ -235,11 +253,88 @@ class SyncPlain(_Base):            # iterable without close()
 
 
 class SyncFile(_Base):
+    """pipe/socket-like reader: every read returns the next scripted block - non-empty and shorter than asked
+    for - whatever the size; the end of the data is b'' only"""
+
     def read(self, size=-1):
+        rest = getattr(self, 'rest', b'')
+        if rest:                                       # (never more than asked for: the remainder comes next)
+            self.rest = rest[size:] if size is not None and size >= 0 else b''
+            return rest[:size] if size is not None and size >= 0 else rest
         b = self._next()
+        if b is not END and b is not None and size is not None and 0 <= size < len(b):
+            b, self.rest = b[:size], b[size:]
         return b'' if b is END else b
 
     def close(self):
+        self.log.closes += 1
+
+
+class SyncIterable(_Base):
+    """iterable with close() that is NOT its own iterator: __iter__ is a generator function, so iter(stream) is a
+    generator object and not the stream.  close() of *this* object is what the property speaks about; close() of a
+    derived iterator is recorded separately (iter_closes) and does not count."""
+
+    def __iter__(self):
+        try:
+            while True:
+                b = self._next()
+                if b is END:
+                    return
+                yield b
+        finally:
+            self.log.iter_closes += 1
+
+    def close(self):
+        self.log.closes += 1
+
+
+class SyncFileFull(_Base):
+    """file-like that honours the size argument: the data is one byte string (the concatenation of the case's
+    segments), read(n) returns exactly n bytes until fewer are left, then the rest, then b''."""
+
+    def __init__(self, chunks, log, fail_at):
+        _Base.__init__(self, [], log, fail_at)
+        self.data, self.pos = b''.join(chunks), 0
+
+    def _read(self, size):
+        self._next()                                  # counts the read, raises the scheduled fault
+        n = len(self.data) - self.pos if size is None or size < 0 else size
+        b = self.data[self.pos:self.pos + n]
+        self.pos += len(b)
+        return b
+
+    def read(self, size=-1):
+        return self._read(size)
+
+    def close(self):
+        self.log.closes += 1
+
+
+class AsyncFileFull(SyncFileFull):
+    async def read(self, size=-1):
+        await asyncio.sleep(0)
+        return self._read(size)
+
+    async def close(self):
+        self.log.closes += 1
+
+
+class AsyncIterable(_Base):
+    """async counterpart of SyncIterable: __aiter__ is an async generator function"""
+
+    async def __aiter__(self):
+        try:
+            while True:
+                await asyncio.sleep(0)
+                b = self._next()
+                if b is END:
+                    return
+                yield b
+        finally:
+            self.log.iter_closes += 1
+
+    async def close(self):
         self.log.closes += 1
 
 
@@ -356,15 +451,23 @@ def fill(resp, is_asgi):
             if case['stream'] == 'iter':
                 stream = AsyncIter(chunks, log, sfail)
                 stream.none_end = bool(var.get('none_end'))
+            elif case['stream'] == 'iterable':
+                stream = AsyncIterable(chunks, log, sfail)
             elif case['stream'] == 'file':
                 stream = AsyncFile(chunks, log, sfail)
+            elif case['stream'] == 'filefull':
+                stream = AsyncFileFull(chunks, log, sfail)
             else:
                 stream = async_plain(chunks, log, sfail)
         else:
             if case['stream'] == 'iter':
                 stream = SyncIter(chunks, log, sfail)
+            elif case['stream'] == 'iterable':
+                stream = SyncIterable(chunks, log, sfail)
             elif case['stream'] == 'file':
                 stream = SyncFile(chunks, log, sfail)
+            elif case['stream'] == 'filefull':
+                stream = SyncFileFull(chunks, log, sfail)
             elif var.get('plain_list') and sfail < 0:
                 stream = chunks                                   # a plain list of byte strings
             else:
@@ -652,13 +755,14 @@ def execute(case, variant):
             ev.append(body_event(len(ch), True))
         if res.iterable is not None and res.exc is None and not res.extra.get('send_failed'):
             ev.append({'k': 'eof', 'n': 0, 'more': False, 'src': '', 'idx': -1, 'cl': -1, 'ct': '', 'sl': True})
-    return {'c': case, 'ev': ev, 'pieces': pieces_of(res.body, case), 'begun': log.begun, 'closes': log.closes,
+    cut = log.raised or bool(res.extra.get('send_failed')) or res.exc is not None
+    return {'c': case, 'ev': ev, 'pieces': pieces_of(res.body, case, cut), 'begun': log.begun, 'closes': log.closes,
             'raised': log.raised, 'sendFailed': bool(res.extra.get('send_failed')), 'renderFailed': log.renderFailed,
             'renderFails': log.renderFails,
             'exc': res.exc is not None,
             'errors': len(res.errors),
             '_info': {'exc': repr(res.exc) if res.exc is not None else None, 'errors': res.errors[:3], 'status': res.status, 'status_line': res.status_line if not is_asgi else res.status,
-                      'headers': res.headers[:8], 'body': repr(res.body[:60]), 'hang': hang}}
+                      'headers': res.headers[:8], 'body': repr(res.body[:60]), 'hang': hang, 'iter_closes': log.iter_closes}}
 
 
 # ------------------------------------------------------------------------------------------------
@@ -683,7 +787,7 @@ def compare_with_behaviour(b, obs):
     faulted = obs['raised'] or obs['sendFailed']
     info = obs['_info']
     spec_ev = [{'k': e[0], 'n': e[1], 'more': e[2], 'src': e[3], 'idx': e[4]} for e in b['ev']]
-    spec_pieces = [[e['src'], e['idx']] for e in spec_ev if e['k'] == 'body' and e['n'] > 0]
+    spec_pieces = [list(x) for x in b['pieces']]       # the body as source pieces, as the specification projects it
     got_bytes = sum(e['n'] for e in obs['ev'] if e['k'] == 'body')
     nstart = sum(1 for e in obs['ev'] if e['k'] == 'start')
     bad, notes = [], []
@@ -750,8 +854,9 @@ def compare_with_behaviour(b, obs):
             P('StatusLineWellFormed', 'status handed to the server: %r' % (info.get('status_line', info['status']),))
         if info['status'] != b['eff']['code']:
             notes.append(('D:status', 'status %r, specification %r' % (info['status'], b['eff']['code'])))
-    if obs['closes'] > 1 or (obs['begun'] and case['stream'] in ('iter', 'file') and obs['closes'] != 1):
-        P('CloseExactlyOnceOnceBegun', 'stream begun=%r, close() calls=%d' % (obs['begun'], obs['closes']))
+    if obs['closes'] > 1 or (obs['begun'] and b['hasclose'] and obs['closes'] != 1):
+        P('CloseExactlyOnceOnceBegun', 'stream (%s) begun=%r, close() calls on the assigned object=%d (derived iterators '
+          'finalised: %d)' % (case['stream'], obs['begun'], obs['closes'], info['iter_closes']))
     # D-level: the exact event sequence (block boundaries, where the empty blocks are), begun / closes
     same_len = len(spec_ev) == len(obs['ev'])
     shape_spec = [(e['k'], e['more'], e['n'] if e['src'] not in ('sse', 'ping') else -1) for e in spec_ev]
@@ -797,9 +902,13 @@ def random_case(rng):
     def ln(lo, hi, pnone=0.5, pzero=0.12):
         t = rng.random()
         return -1 if t < pnone else (0 if t < pnone + pzero else rng.randint(lo, hi))
-    kind = rng.choice(('none', 'none', 'iter', 'file', 'plain'))
+    kind = rng.choice(('none', 'none', 'none', 'iter', 'iterable', 'file', 'file', 'filefull', 'plain'))
     chunks = []
-    if kind != 'none':
+    if kind == 'filefull':
+        # data segments of a file-like that honours the size: around the framework's block size and beyond
+        for _ in range(rng.choice((0, 1, 1, 2, 2, 3))):
+            chunks.append(rng.choice((8192, 8191, 8193, 16384, 5000, 17, 20000, rng.randint(6, 12000))))
+    elif kind != 'none':
         for _ in range(rng.choice((0, 1, 1, 2, 2, 3, 4, 5))):
             t = rng.random()
             # None: "no data yet" from a file-like / "the end" from an async iterator or generator (ASGI only)
@@ -815,9 +924,9 @@ def random_case(rng):
         case['sk'] = [0 if rng.random() < 0.4 else 1 for _ in range(case['sse'])]
     t = rng.random()
     if t < 0.25:
-        case['fk'], case['fa'] = 'stream', rng.randint(0, max(len(chunks), case['sse'], 0) + 1)
+        case['fk'], case['fa'] = 'stream', rng.randint(0, max(len(chunks), case['sse'], 0) + (4 if kind == 'filefull' else 1))
     elif t < 0.5:
-        case['fk'], case['fa'] = 'send', rng.randint(0 if iface == 'asgi' else 1, len(chunks) + 3)
+        case['fk'], case['fa'] = 'send', rng.randint(0 if iface == 'asgi' else 1, len(chunks) + (6 if kind == 'filefull' else 3))
     elif t < 0.65:
         case['fk'], case['fa'] = 'render', rng.choice((1, 1, 2))
     elif case['sse'] >= 0 and t < 0.85:
@@ -899,7 +1008,8 @@ def _run(ctx):
     # vacuity: each wrong-design switch must break its invariant
     for sw, inv in (('RenderSetsType', 'TypelessHaveNoFrameworkType'), ('BodilessByLine', None),
                     ('ForgetCloseOnFault', 'CloseExactlyOnceOnceBegun'), ('StaleLengthOnRenderFault', 'LengthConsistent'),
-                    ('StatusStringAsIs', 'StatusLineWellFormed'), ('ReturnOnDisconnect', 'OnlyLastHasNoMoreBody')):
+                    ('StatusStringAsIs', 'StatusLineWellFormed'), ('ReturnOnDisconnect', 'OnlyLastHasNoMoreBody'),
+                    ('CloseDerivedIterator', 'CloseExactlyOnceOnceBegun'), ('StopAtShortBlock', 'Precedence')):
         rv = ctx.tlc('MC_ResponseEmit', 'MC_ResponseEmit_%s.cfg' % sw, workers=4, timeout=300, must_hold=False, count=False)
         if not rv.violated or (inv and rv.violated != inv):
             raise MachineryError('wrong-design switch %s: expected invariant %s to fail, TLC reported %r'
@@ -913,6 +1023,26 @@ def _run(ctx):
     if len(behaviours) < 1000:
         raise MachineryError('behaviour export produced only %d behaviours' % len(behaviours))
     ctx.progress('leg A: %d behaviours exported' % len(behaviours))
+    # vacuity guard of the stream-object-kind dimension: TLC's table must hold every kind on the interfaces it exists on,
+    # fault-free and under a read fault, a send fault at the response start (ASGI) and at a body block, with the stream
+    # really begun; short-block and full-block file-likes with more than one block
+    have = set()
+    for b in behaviours:
+        c = b['c']
+        if c['stream'] != 'none' and b['chosen'] == 'stream' and not b['bodiless']:
+            nblocks = sum(1 for e in b['ev'] if e[0] == 'body' and e[3] == 'stream')
+            have.add((c['stream'], c['iface'], c['fk'], 'start' if (c['fk'] == 'send' and c['fa'] == 0) else
+                      'begun' if b['begun'] else 'notbegun', 'multi' if nblocks > 1 else 'single'))
+    need = []
+    for kind in ('iter', 'iterable', 'file', 'filefull'):
+        for iface in (('wsgi', 'asgi') if quick and kind == 'iter' else ('wsgi', 'wsgifw', 'asgi')):
+            need += [(kind, iface, 'none', 'begun', 'multi'), (kind, iface, 'stream', 'begun', None),
+                     (kind, iface, 'send', 'begun', None)]
+        need.append((kind, 'asgi', 'send', 'start', None))
+    missing = [x for x in need if not any(y[:4] == x[:4] and x[4] in (None, y[4]) for y in have)]
+    if missing:
+        raise MachineryError('stream object kinds: the exported table lacks %r' % missing[:6])
+    ctx.extra['stream_kind_cells'] = len(have)
     nvar = len(VARIANTS)
     replayed = 0
     by_case = {}
